@@ -30,3 +30,34 @@ pub mod impl_named {
     #[::entrait::entrait(Impl)]
     fn an_impl<D>(deps: &D) {}
 }
+
+// generated traits NAMED like the marker traits, used as DEPENDENCY bounds of other entraited functions:
+// they are the user's traits, not `::core::marker::*`, and their bounds are requirements like any other
+pub mod as_deps {
+    pub trait Storage {}
+    #[::entrait::entrait(pub Sync)]
+    fn sync(deps: &impl Storage) {}
+    #[::entrait::entrait(pub Send)]
+    fn send(deps: &impl Storage) {}
+    #[::entrait::entrait(pub Backup)]
+    fn backup(deps: &impl Sync) {
+        deps.sync()
+    }
+    #[::entrait::entrait(pub BackupBoth)]
+    fn backup_both<D>(deps: &D)
+    where
+        D: Sync + Send,
+    {
+        deps.sync();
+        deps.send()
+    }
+    #[::entrait::entrait(pub BackupMod)]
+    pub mod backup_mod {
+        pub fn one(deps: &impl super::Sync) {
+            deps.sync()
+        }
+        pub fn two(deps: &(impl super::Send + super::Sync)) {
+            deps.send()
+        }
+    }
+}
